@@ -340,6 +340,14 @@ def run(ctx):
         "a run that dies in a sizing-search guard on a request the brute-force reference can satisfy is the known C05 defect seen from a run",
     ]
     fam = R.family(ctx.tier, ctx.seed)
+    # tables that cover only part of the tree: a bid/offer table quoting some of the tickers; a risk table
+    # without a number for a child that is declared but flat
+    for st in R.stacks("quick")[:4]:
+        for tree in ("flat", "flat_eager", "nested"):
+            fam.append({"tree": tree, "stack": st, "data": "d12", "alpha": "exact", "integer": tree != "flat_eager", "capital": 1e6, "rng": 0, "fee": None, "spread": 0.5, "spread_cols": ["a", "d"]})
+    for g in ("daily", "weekly"):
+        fam.append({"tree": "fi_hedge", "stack": {"gate": g}, "fi_weights": {"a": 0.5, "b": 0.5}, "idle_child": True, "data": "d12", "alpha": "exact", "late": False, "integer": False, "capital": 0.0, "rng": 0, "fee": None, "spread": None})
+        fam.append({"tree": "fi_hedge", "stack": {"gate": g}, "fi_weights": {"a": 0.75, "b": -0.25}, "data": "d12", "alpha": "exact", "late": False, "integer": False, "capital": 0.0, "rng": 0, "fee": None, "spread": None})
     kinds = ["py", "cy"]
     ctx.bounds = {"runs": len(fam), "builds": kinds}
     for kind in kinds:
